@@ -145,7 +145,15 @@ def run_case(case, ctx):
                     a.frombytes(c)
                     c, is_array = (a if rng.random() < 0.5 else memoryview(a)), True
                     ctx.count("writes_of_multibyte_item_buffers")
+                reused = None
+                if type(c) is bytearray or (type(c) is bytes and k >= 0.5 and k < 0.6 and nbytes):
+                    # the caller's buffer is its own: a copy loop reuses ONE buffer object and overwrites it right after write()
+                    # has returned (while (n := src.readinto(buf)): dst.write(buf[:n]) ...)
+                    reused = c = bytearray(c)
+                    ctx.count("writes_from_a_buffer_the_caller_overwrites_afterwards")
                 r = f.write(c)
+                if reused is not None:
+                    reused[:] = b"\xee" * len(reused)
                 total += nbytes
                 if r != nbytes or f.tell() != total:
                     ctx.violation("write:count-or-tell", f"write returned {r} for {nbytes} bytes, tell={f.tell()} total={total}",
